@@ -253,6 +253,51 @@ def handover_run(kind):
     return {'outcome': out, 'elapsed': time.time() - t0, 'frames': len(sent)}
 
 
+def two_callers_run():
+    """two threads call a blocking send(): the first request is in transmission to a cooperative peer (paced by the peer's STmin, so
+    it takes a few hundred ms), the second is queued behind it with a send_timeout that elapses meanwhile.  The second caller gets
+    BlockingSendTimeout; the first one's transfer is not disturbed: it returns normally and the peer receives its payload."""
+    import isotp
+    q12, q21 = queue.Queue(), queue.Queue()
+
+    def rxf(q):
+        def f(timeout):
+            try:
+                return q.get(timeout=timeout)
+            except queue.Empty:
+                return None
+        return f
+    a = isotp.Address(isotp.AddressingMode.Normal_11bits, txid=0x111, rxid=0x222)
+    b = isotp.Address(isotp.AddressingMode.Normal_11bits, txid=0x222, rxid=0x111)
+    A = isotp.TransportLayer(rxfn=rxf(q21), txfn=q12.put, address=a, params={'blocking_send': True, 'stmin': 0}, read_timeout=0.02)
+    B = isotp.TransportLayer(rxfn=rxf(q12), txfn=q21.put, address=b, params={'stmin': 20, 'blocksize': 0}, read_timeout=0.02)
+    A.start(); B.start()
+    out = {}
+    p1 = bytes(range(150))
+
+    def worker(name, payload, to):
+        try:
+            A.send(payload, send_timeout=to)
+            out[name] = 'ok'
+        except isotp.BlockingSendTimeout:
+            out[name] = 'timeout'
+        except isotp.BlockingSendFailure:
+            out[name] = 'failure'
+        except Exception as e:
+            out[name] = 'other:' + type(e).__name__
+    try:
+        t1 = threading.Thread(target=worker, args=('first', p1, 5.0), daemon=True)
+        t1.start()
+        time.sleep(0.1)
+        t2 = threading.Thread(target=worker, args=('second', bytes([9, 9, 9]), 0.1), daemon=True)
+        t2.start()
+        t1.join(6.0); t2.join(6.0)
+        got = B.recv(block=True, timeout=1.0)
+    finally:
+        A.stop(); B.stop()
+    return {'outcomes': dict(out), 'first_delivered': got is not None and bytes(got) == p1}
+
+
 def oracle_blocking(sc, res):
     fails = []
     o = res['outcome']
@@ -310,6 +355,16 @@ def run_shard(campaign, shard, nshards, seed, tier):
                                    'stop() with a caller blocked in send(): outcomes %s, still blocked %s, transmitting=%s' % (res['outcomes'], res['alive'], res['transmitting']),
                                    {'scenario': 'stop_while_blocked', 'result': res})
                 part.sample({'scenario': 'stop_while_blocked', 'result': res})
+        if shard == 2 % nshards:
+            for rep in range(reps):
+                res = two_callers_run()
+                part.d['evaluations'] += 1
+                part.distinct(('two_callers', rep))
+                part.hist('blocking_outcome', 'two_callers/%s' % sorted(res['outcomes'].items()))
+                if res['outcomes'].get('first') != 'ok' or not res['first_delivered'] or res['outcomes'].get('second') not in ('timeout',):
+                    part.violation('oracle', campaign, 'C12:another-callers-request-disturbed',
+                                   'a queued send() timed out while another request was in transmission to a cooperative peer: outcomes %s, first payload delivered=%s' % (
+                                       res['outcomes'], res['first_delivered']), {'scenario': 'two_callers', 'result': res})
         if shard == 1 % nshards:
             for rep in range(reps):
                 for kind, want in (('callback', 'ok'), ('abort', 'failure'), ('thread', 'ok')):
